@@ -80,6 +80,21 @@ fn extract(plan: &Value) -> Value {
     let repo = plan["repo"].as_str().unwrap_or("/repo").to_string();
     let mut cache: HashMap<String, Result<syn::File, String>> = HashMap::new();
     let mut results = Vec::new();
+    // E27: names of every function the unit plans to extract (never auto-added), and the helpers already auto-added
+    let mut planned: BTreeSet<String> = BTreeSet::new();
+    for item in plan["items"].as_array().cloned().unwrap_or_default() {
+        for f in item["fns"].as_array().cloned().unwrap_or_default() {
+            if let Some(n) = f["name"].as_str() {
+                planned.insert(n.to_string());
+            }
+        }
+        if item["kind"].as_str() == Some("fn") {
+            if let Some(n) = item["name"].as_str() {
+                planned.insert(n.to_string());
+            }
+        }
+    }
+    let mut auto_done: BTreeSet<String> = BTreeSet::new();
     for item in plan["items"].as_array().cloned().unwrap_or_default() {
         let file = item["file"].as_str().unwrap_or("").to_string();
         let parsed = cache.entry(file.clone()).or_insert_with(|| {
@@ -91,7 +106,7 @@ fn extract(plan: &Value) -> Value {
         });
         let res = match parsed {
             Err(e) => json!({"id": item["id"], "error": e.clone()}),
-            Ok(f) => match extract_item(f, &item) {
+            Ok(f) => match extract_item(f, &item, &planned, &mut auto_done) {
                 Ok(mut v) => {
                     v["id"] = item["id"].clone();
                     v["file"] = json!(file);
@@ -130,7 +145,7 @@ fn impl_header(i: &syn::ItemImpl) -> String {
     }
 }
 
-fn extract_item(f: &syn::File, item: &Value) -> Result<Value, String> {
+fn extract_item(f: &syn::File, item: &Value, planned: &BTreeSet<String>, auto_done: &mut BTreeSet<String>) -> Result<Value, String> {
     let kind = item["kind"].as_str().unwrap_or("");
     let name = item["name"].as_str().unwrap_or("").to_string();
     let mod_path: Vec<String> = item["mod_path"]
@@ -263,8 +278,84 @@ fn extract_item(f: &syn::File, item: &Value) -> Result<Value, String> {
                 }
             }
             infos.sort_by_key(|(j, _)| *j);
-            let file = syn::File { shebang: None, attrs: vec![], items: vec![syn::Item::Impl(out_impl.unwrap())] };
-            Ok(json!({"text": prettyplease::unparse(&file), "fns": infos.into_iter().map(|(_, i)| i).collect::<Vec<_>>()}))
+            // E27: a function of the same impl that an extracted function calls, that the unit does not list, and whose body is
+            // straight-line pure code (lets and a tail expression) is extracted too, with the contract `result == its own body`
+            let mut out_impl = out_impl.unwrap();
+            let mut autos: Vec<Value> = Vec::new();
+            let mut subs: Vec<(String, String, String)> = Vec::new();
+            for _round in 0..4 {
+                let mut called: BTreeSet<String> = BTreeSet::new();
+                for ii in out_impl.items.iter() {
+                    if let syn::ImplItem::Fn(m) = ii {
+                        let mut cc = CallCollector(BTreeSet::new());
+                        cc.visit_block(&m.block);
+                        for c in cc.0 {
+                            let last = c.rsplit("::").next().unwrap_or("").trim_start_matches('.').to_string();
+                            called.insert(last);
+                        }
+                    }
+                }
+                let mut added = false;
+                for it in items {
+                    if let syn::Item::Impl(im) = it {
+                        if impl_header(im) != want {
+                            continue;
+                        }
+                        for ii in im.items.iter() {
+                            if let syn::ImplItem::Fn(m) = ii {
+                                let mname = m.sig.ident.to_string();
+                                let key = format!("{}::{}", want, mname);
+                                if !called.contains(&mname) || planned.contains(&mname) || auto_done.contains(&key) {
+                                    continue;
+                                }
+                                if !pure_straightline(&m.sig, &m.block) {
+                                    continue;
+                                }
+                                let n = auto_done.len();
+                                let mut m2 = m.clone();
+                                m2.attrs.clear();
+                                let before = format!("{} {}", ts_string(&m.sig), ts_string(&m.block));
+                                let body_text = ts_string(&m.block);
+                                let ret_ty = if let syn::ReturnType::Type(_, t) = &m.sig.output {
+                                    let tt: TokenStream = t.to_token_stream();
+                                    let ff: syn::File = parse_quote!(type __T = #tt;);
+                                    let st = prettyplease::unparse(&ff);
+                                    st.trim().trim_start_matches("type __T =").trim().trim_end_matches(';').trim().to_string()
+                                } else {
+                                    continue;
+                                };
+                                let rt = format_ident!("__VX_AUTO{}_RET__", n);
+                                m2.sig.output = syn::ReturnType::Type(Default::default(), Box::new(parse_quote!(#rt)));
+                                m2.block.stmts.insert(0, marker_stmt(&format!("__VX_AUTO{}_FN__", n)));
+                                subs.push((
+                                    format!("__VX_AUTO{}_RET__", n),
+                                    format!("__VX_AUTO{}_FN__", n),
+                                    format!("(__vx_r: {})\n        // E27 auto-contract: the result is the function's own straight-line body\n        ensures __vx_r == ({})", ret_ty, body_text),
+                                ));
+                                out_impl.items.push(syn::ImplItem::Fn(m2));
+                                auto_done.insert(key);
+                                autos.push(json!({"name": mname, "hash_before": fnv(&before), "ret_ty": ret_ty}));
+                                added = true;
+                            }
+                        }
+                    }
+                }
+                if !added {
+                    break;
+                }
+            }
+            let file = syn::File { shebang: None, attrs: vec![], items: vec![syn::Item::Impl(out_impl)] };
+            let mut text = prettyplease::unparse(&file);
+            for (ret_m, fn_m, spec) in subs {
+                // `-> RET {` `FN;` becomes `-> (r: T) ensures r == body {`
+                let spec_txt = spec.replace("\\n", "\n");
+                text = text.replace(&ret_m, &spec_txt);
+                let marker = format!("{};", fn_m);
+                if let Some(pos) = text.find(&marker) {
+                    text.replace_range(pos..pos + marker.len(), "");
+                }
+            }
+            Ok(json!({"text": text, "fns": infos.into_iter().map(|(_, i)| i).collect::<Vec<_>>(), "auto_fns": autos}))
         }
         _ => Err(format!("bad plan: unknown kind `{}`", kind)),
     }
@@ -1286,6 +1377,87 @@ impl<'a> VisitMut for MarkVisitor<'a> {
         }
         visit_mut::visit_expr_mut(self, e);
     }
+}
+
+/// E27: only `let x = e;` statements and a tail expression; no mutation, no early exit, no loop, no closure, no macro but `matches!`
+fn pure_straightline(sig: &syn::Signature, block: &Block) -> bool {
+    if sig.asyncness.is_some() || sig.unsafety.is_some() || sig.generics.type_params().next().is_some() {
+        return false;
+    }
+    if matches!(sig.output, syn::ReturnType::Default) {
+        return false;
+    }
+    for a in sig.inputs.iter() {
+        match a {
+            syn::FnArg::Receiver(r) => {
+                if r.mutability.is_some() {
+                    return false;
+                }
+            }
+            syn::FnArg::Typed(t) => {
+                let ty = norm(&ts_string(&t.ty));
+                if ty.contains("&mut") || ty.contains("& mut") || ty.contains("impl ") {
+                    return false;
+                }
+                match &*t.pat {
+                    syn::Pat::Ident(pi) if pi.mutability.is_none() => {}
+                    _ => return false,
+                }
+            }
+        }
+    }
+    let n = block.stmts.len();
+    if n == 0 {
+        return false;
+    }
+    for (i, st) in block.stmts.iter().enumerate() {
+        match st {
+            Stmt::Local(l) => {
+                if i == n - 1 {
+                    return false;
+                }
+                match &l.init {
+                    Some(init) if init.diverge.is_none() => {}
+                    _ => return false,
+                }
+                let ok = match &l.pat {
+                    syn::Pat::Ident(pi) => pi.mutability.is_none() && pi.by_ref.is_none(),
+                    syn::Pat::Type(pt) => matches!(&*pt.pat, syn::Pat::Ident(pi) if pi.mutability.is_none() && pi.by_ref.is_none()),
+                    _ => false,
+                };
+                if !ok {
+                    return false;
+                }
+            }
+            Stmt::Expr(_, None) if i == n - 1 => {}
+            _ => return false,
+        }
+    }
+    struct Bad(bool);
+    impl<'ast> Visit<'ast> for Bad {
+        fn visit_expr(&mut self, e: &'ast Expr) {
+            match e {
+                Expr::Try(_) | Expr::Return(_) | Expr::Loop(_) | Expr::While(_) | Expr::ForLoop(_) | Expr::Closure(_) | Expr::Assign(_)
+                | Expr::Break(_) | Expr::Continue(_) | Expr::Unsafe(_) | Expr::Await(_) | Expr::Async(_) | Expr::Yield(_) => self.0 = true,
+                Expr::Binary(b) if matches!(b.op, syn::BinOp::AddAssign(_) | syn::BinOp::SubAssign(_) | syn::BinOp::MulAssign(_)
+                    | syn::BinOp::DivAssign(_) | syn::BinOp::RemAssign(_) | syn::BinOp::BitAndAssign(_) | syn::BinOp::BitOrAssign(_)
+                    | syn::BinOp::BitXorAssign(_) | syn::BinOp::ShlAssign(_) | syn::BinOp::ShrAssign(_)) => self.0 = true,
+                Expr::Reference(r) if r.mutability.is_some() => self.0 = true,
+                Expr::Macro(m) if !m.mac.path.is_ident("matches") => self.0 = true,
+                _ => {}
+            }
+            syn::visit::visit_expr(self, e);
+        }
+        fn visit_stmt(&mut self, s: &'ast Stmt) {
+            if let Stmt::Macro(_) = s {
+                self.0 = true;
+            }
+            syn::visit::visit_stmt(self, s);
+        }
+    }
+    let mut b = Bad(false);
+    b.visit_block(block);
+    !b.0
 }
 
 struct CallCollector(BTreeSet<String>);
